@@ -275,7 +275,31 @@ var subPolicy = ev.Register("policy", func(c PolicyCase) error {
 func TestPropPolicy(t *testing.T) {
 	ev.Check(t, subPolicy, func(t *rapid.T) PolicyCase {
 		bad := tarx.Entry{Mode: 0644, Sec: 1500000000}
-		if rapid.Bool().Draw(t, "link") {
+		var pre []tarx.Entry
+		if k := rapid.IntRange(0, 9).Draw(t, "class"); k < 3 {
+			// an entry kind a slug may not contain
+			bad.Type = rapid.SampledFrom([]string{"fifo", "char", "block", "hardlink", "raw:Z", "raw:7"}).Draw(t, "kind")
+			bad.Name = rapid.SampledFrom([]string{"p", "sub/p", "./p"}).Draw(t, "pname")
+			if bad.Type == "hardlink" {
+				bad.Link = "ok0"
+			}
+		} else if k < 5 {
+			// an entry placed through a link of the archive
+			pre = []tarx.Entry{{Name: "l", Type: "symlink", Mode: 0777, Link: rapid.SampledFrom([]string{".", "sub", "ok0"}).Draw(t, "via"), Sec: 1500000000}}
+			bad.Type = rapid.SampledFrom([]string{"file", "dir", "symlink"}).Draw(t, "ttype")
+			bad.Name = rapid.SampledFrom([]string{"l/x", "l/x/y", "zz/../l/x"}).Draw(t, "tname")
+			if bad.Type == "symlink" {
+				bad.Link = "x"
+			} else {
+				bad.Body = "IN:bad"
+			}
+		} else if k < 6 {
+			// a link that leaves the destination by way of another link
+			pre = []tarx.Entry{{Name: "a", Type: "symlink", Mode: 0777, Link: ".", Sec: 1500000000}}
+			bad.Type = "symlink"
+			bad.Name = "b"
+			bad.Link = rapid.SampledFrom([]string{"a/..", "a/../..", "a/../dst-evil"}).Draw(t, "viatarget")
+		} else if rapid.Bool().Draw(t, "link") {
 			bad.Type = "symlink"
 			bad.Name = rapid.SampledFrom([]string{"l", "sub/l", "./l"}).Draw(t, "lname")
 			bad.Link = rapid.SampledFrom([]string{"../..", "../../x", "/etc/passwd", "{R}/dst-evil", "{DST}-evil/x", "../../dst-evil"}).Draw(t, "ltarget")
@@ -289,7 +313,10 @@ func TestPropPolicy(t *testing.T) {
 		for i := 0; i < rapid.IntRange(0, 3).Draw(t, "nbefore"); i++ {
 			before = append(before, tarx.Entry{Name: fmt.Sprintf("ok%d", i), Type: "file", Mode: 0644, Body: "fine", Sec: 1500000000})
 		}
-		return PolicyCase{Before: before, Bad: bad}
+		if strings.HasPrefix(bad.Type, "raw:") {
+			bad.Raw = true
+		}
+		return PolicyCase{Before: append(before, pre...), Bad: bad}
 	})
 }
 
